@@ -199,6 +199,9 @@ func checkC15(r *core.Run) {
 	}
 	c15ManagerTruth(r)
 	c15ReplySession(r)
+	// the reply's bytes: encoding is a function of the reply alone (no buffer shared between replies in flight)
+	c12Pure(r, "C15.pure")
+	r.Floor("C15.pure", 60)
 	r.Floor("C15.route", 4)
 	r.Floor("C15.echo", 16)
 	r.Floor("C15.once", 6)
